@@ -25,6 +25,10 @@ func TestVerif(t *testing.T) {
 		h = appHarness{prop: e.Prop}
 	case "C12APP":
 		h = multiHarness{}
+	case "C03MULTI":
+		h = multiHarness{healthy: true}
+	case "C04APP", "C02APP":
+		h = faultHarness{prop: e.Prop}
 	default:
 		t.Fatalf("unknown property %s for package cmd/thruserv", e.Prop)
 	}
